@@ -23,3 +23,18 @@ package path
 //@   trusted
 //@   modifies checkFailures
 //@   ensures checkFailures == old(checkFailures) + ite(err == nil, 0, 1)
+
+// x lies strictly below p at a path-element boundary
+//@ spec under(x string, p string) bool = hasPrefix(x, p) && len(x) > len(p) && (at(x, len(p)) == "/" || at(x, len(p)) == "[")
+
+//@ func GetParentPath(path) (r)
+//@   props C16, C03
+//@   modifies nothing
+//@   ensures {C16,C03} drops-last-element: forall p string, e string :: path == p + "/" + e && !contains(e, "/") && p != "" ==> r == p
+//@   ensures {C16,C03} root-has-no-parent: !contains(substr(path, 1, len(path)), "/") ==> r == ""
+//@   ensures {C16,C03} parent-is-proper-prefix: r != "" ==> hasPrefix(path, r + "/") && !contains(substr(path, len(r) + 1, len(path)), "/")
+
+//@ func IsDescendantPath(path, ancestor) (r)
+//@   props C03
+//@   modifies nothing
+//@   ensures {C03} descendant-at-element-boundary: r == ite(ancestor == "/", path != "/", under(path, ancestor))
